@@ -306,6 +306,8 @@ pub fn build_result(abort: Option<&str>, stats: &detsim::Stats) -> RunResult {
 pub fn default_abort_class(why: &str) -> (String, String) {
     if why.starts_with("deadlock") {
         ("violation".into(), "deadlock".into())
+    } else if why.starts_with("step-cap:solo-spin") {
+        ("violation".into(), "livelock".into())
     } else if why.starts_with("step-cap") {
         ("discard".into(), "step-cap".into())
     } else {
